@@ -158,13 +158,12 @@ def wroteOK (dbRes : List Char → Path) (requireAuth : Bool) (svc : AuthSvc) (r
 /-- Distinct database names never map to the same resource. -/
 def DbInjective (dbRes : List Char → Path) : Prop := ∀ a b, dbRes a = dbRes b → a = b
 
-/-- Recorded deviation `db-collision` (findings/C20.txt): the pair of names differs, one of them contains a
-'/', and they become equal once every '/' is replaced by '_' and the clean/dirty mark is appended — e.g.
-"a/b_" and "a_b/". This is a decidable predicate on the input pair. -/
+/-- Recorded deviation `db-collision` (findings/C20.txt): two DIFFERENT names that BOTH contain a '/' and
+become equal once every '/' is replaced by '_' — they differ only at positions where one has '/' and the other
+'_' (e.g. "a/b_" and "a_b/"). A decidable predicate on the input pair; theorem
+`Kap.Props.C20.database_resource_collisions_exactly` shows these are ALL the collisions of the transcribed code. -/
 def Dev_db_collision (a b : List Char) : Bool :=
-  let mark (d : List Char) : List Char :=
-    let r := d.map (fun c => if c = '/' then '_' else c)
-    r ++ (if r = d then "_clean".toList else "_dirty".toList)
-  a ≠ b && a ≠ [] && b ≠ [] && (a.contains '/' || b.contains '/') && mark a == mark b
+  let under (d : List Char) : List Char := d.map (fun c => if c = '/' then '_' else c)
+  a ≠ b && a.contains '/' && b.contains '/' && under a == under b
 
 end Kap.C20.Spec
